@@ -501,6 +501,10 @@ func doCheck(prop, tier string) int {
 		fmt.Printf("INTERNAL property=%s cannot write evidence: %v\n", prop, err)
 		return 5
 	}
+	// <id>.json always describes the latest run; a per-tier copy keeps the other tier's last run next to it
+	byTier := filepath.Join(filepath.Dir(evPath), "by-tier")
+	os.MkdirAll(byTier, 0o755)
+	os.WriteFile(filepath.Join(byTier, prop+"."+tier+".json"), b, 0o644)
 	fmt.Printf("%s property=%s tier=%s seed=%d evaluations=%d distinct_nontrivial=%d violations=%d known=%v wall=%.1fs evidence=%s\n",
 		strings.ToUpper(verdict), prop, tier, seed, merged.Evaluations, merged.DistinctNontriv, nfresh, kn, ev.WallS, evPath)
 	return rc
